@@ -499,6 +499,14 @@ func (g *Gen) askDenom() string {
 		return "uregen"
 	}
 	ks := sortedKeys(g.V.AllowedDenoms)
+	if len(ks) > 0 && g.hostile() && g.chance(0.25) {
+		// a strict prefix (or an extension) of an allowed denom: not on the list
+		d := ks[g.R.Intn(len(ks))]
+		if len(d) > 4 && g.chance(0.7) {
+			return d[:len(d)-1-g.R.Intn(len(d)-4)]
+		}
+		return d + "x"
+	}
 	if len(ks) == 0 || (g.hostile() && g.chance(0.3)) {
 		return g.bankDenom()
 	}
@@ -575,9 +583,43 @@ func (g *Gen) genSell() *eng.Tx {
 	m := &markettypes.MsgSell{Seller: g.owner(owner)}
 	n := 1 + g.R.Intn(3)
 	avail := new(big.Rat).Quo(half(h.T), big.NewRat(int64(n), 1))
+	sameDenom := ""
+	if n > 1 && g.chance(0.3) {
+		sameDenom = g.askDenom() // every order of the message asks in one denom
+	}
 	for i := 0; i < n; i++ {
-		c := g.coin(g.askDenom(), g.askAmount())
+		d := g.askDenom()
+		if sameDenom != "" {
+			d = sameDenom
+		}
+		c := g.coin(d, g.askAmount())
 		m.Orders = append(m.Orders, &markettypes.MsgSell_Order{BatchDenom: g.batchDenom(b), Quantity: g.amountUpTo(avail), AskPrice: &c, DisableAutoRetire: g.chance(0.5), Expiration: g.expiration()})
+		if i+1 < n && g.chance(0.5) {
+			// the next order sells another batch of the same owner, preferably of ANOTHER credit type
+			var other, otherType *obs.Bal
+			for k, bal := range g.V.Balances {
+				if k.Addr != owner || k.BatchKey == b.Key || bal.T == nil || bal.T.Sign() <= 0 {
+					continue
+				}
+				if other == nil || k.BatchKey < other.Row.BatchKey {
+					other = bal
+				}
+				if b2 := g.V.Batches[k.BatchKey]; b2 != nil {
+					c1, c2 := g.V.ClassOfBatch(b), g.V.ClassOfBatch(b2)
+					if c1 != nil && c2 != nil && c1.CreditTypeAbbrev != c2.CreditTypeAbbrev && (otherType == nil || k.BatchKey < otherType.Row.BatchKey) {
+						otherType = bal
+					}
+				}
+			}
+			if otherType != nil {
+				other = otherType
+			}
+			if other != nil {
+				if b2 := g.V.Batches[other.Row.BatchKey]; b2 != nil {
+					b, avail = b2, new(big.Rat).Quo(other.T, big.NewRat(int64(n), 1))
+				}
+			}
+		}
 	}
 	return tx(m)
 }
